@@ -311,6 +311,12 @@ func runC03Random(c *fw.Ctx) {
 		}
 	}
 	noteHalt(e)
+	// what a client is TOLD about the orders: every list walk (status x purchaser filters, key and
+	// offset paging) must report each order exactly once, with the status the model holds
+	if e.Halted == "" && !e.L.InBlock {
+		c20WalkAll(c, e, e.L.QueryCtx())
+		c.Count("order_listing_walks", 1)
+	}
 	term := 0
 	for _, po := range m.POs {
 		if po.Status == enttypes.StatusCompleted || po.Status == enttypes.StatusRejected {
